@@ -65,9 +65,10 @@ Release(c0, x, keep) ==
 RV(x) == IF x.t = "c" THEN x.id ELSE 0
 
 \* ---- arrays
-AppS(h, sz) == /\ cont[h].kind = "A" /\ Len(cont[h].el) < MaxE
-               /\ cont' = [cont EXCEPT ![h].el = Append(@, S(nextId, sz, 0))] /\ nextId' = nextId + 1
-               /\ UNCHANGED <<live, nextVid>> /\ Keep /\ H(<<"n.app", h, nextId, sz, 0>>)
+\* scalars may be wrapped too (w levels of the optional-value wrapper)
+AppS(h, sz, w) == /\ cont[h].kind = "A" /\ Len(cont[h].el) < MaxE
+                  /\ cont' = [cont EXCEPT ![h].el = Append(@, [S(nextId, sz, 0) EXCEPT !.w = w])] /\ nextId' = nextId + 1
+                  /\ UNCHANGED <<live, nextVid>> /\ Keep /\ H(<<"n.app", h, nextId, sz, w>>)
 InsS(h, i, sz) == /\ cont[h].kind = "A" /\ Len(cont[h].el) < MaxE
                   /\ cont' = [cont EXCEPT ![h].el = InsAt(@, i, S(nextId, sz, 0))] /\ nextId' = nextId + 1
                   /\ UNCHANGED <<live, nextVid>> /\ Keep /\ H(<<"n.ins", h, i, nextId, sz, 0>>)
@@ -174,7 +175,7 @@ Crash == /\ Persist /\ Crashes /\ hasc /\ cont' = committed
 \* TLC's simulator picks a disjunct uniformly: rarer events are enabled only every n-th step
 Rare(n) == RareOff \/ Len(hist) % n = 0
 Next ==
-  \/ \E h \in live, s \in Sizes : AppS(h, s)
+  \/ \E h \in live, s \in Sizes, w \in Wraps : AppS(h, s, w)
   \/ \E h \in live, s \in Sizes : \E i \in 0..Len(cont[h].el) : InsS(h, i, s)
   \/ \E h \in live, kd \in Kinds, w \in Wraps : AppC(h, kd, w)
   \/ \E h \in live, s \in Sizes, kp \in BOOLEAN : \E i \in 0..(Len(cont[h].el) - 1) : SetS(h, i, s, kp)
